@@ -1,4 +1,6 @@
 import VermouthModel.C17
+import VermouthModel.C17_Residues
+import VermouthModel.C17_Dssp
 import Generated.C17Tables
 open Proto C17
 
@@ -46,6 +48,35 @@ def encRes : Res → String
   | .molecule (.ok m) => "ok " ++ encMol m
   | .molecule (.error e) => encErr e
 
+def optNatOf (v : Tok) : Option (Option Nat) :=
+  match v with
+  | Tok.none => some none
+  | Tok.int i => if i < 0 then none else some (some i.toNat)
+  | _ => none
+
+def atom2Of (t : Tok) : Option Atom2 := do
+  match ← t.list? with
+  | [k, r, s, d] => pure { key := ← k.int?, res := ← r.nat?, src := ← optNatOf s, dst := ← optNatOf d }
+  | _ => none
+
+def mol2Of (t : Tok) : Option Mol2 := do (← t.list?).mapM atom2Of
+
+def selMol2Of (t : Tok) : Option (Bool × Mol2) := do
+  match ← t.list? with
+  | [s, m] => pure ((← s.nat?) != 0, ← mol2Of m)
+  | _ => none
+
+def encMol2 (m : Mol2) : String := encList (m.map fun a => encList [encVal a.src, encVal a.dst])
+
+def encMols2 : Except Err (List Mol2) → String
+  | .ok ms => "ok " ++ encList (ms.map encMol2)
+  | .error e => encErr e
+
+def encDssp : Except DsspErr (List Char) → String
+  | .ok cs => "ok " ++ encStr (String.ofList cs)
+  | .error .stopIteration => "stopiteration"
+  | .error .ioError => "ioerror"
+
 def handle (_ : Unit) (toks : List Tok) : Unit × String :=
   let r : Option String :=
     match toks with
@@ -84,6 +115,69 @@ def handle (_ : Unit) (toks : List Tok) : Unit × String :=
         match convertAnnotation C17Tables.ssCg C17Tables.patterns m with
         | .ok m' => pure ("ok " ++ encMol m')
         | .error e => pure (encErr e)
+    | [Tok.str "pyset", ks] => do
+        let ks ← ints? ks
+        pure (encList ((pySetIter ks).map encInt) ++ " exact " ++ encBool (setOrderExact ks))
+    | [Tok.str "iterres", m] => do
+        let m ← molOf m
+        pure (encList ((iterResidues m).map fun p => encList (p.2.map encInt))
+          ++ " exact " ++ encBool (iterResiduesExact m))
+    | [Tok.str "seqres", m] => do
+        let m ← molOf m
+        pure (encList ((seqFromResiduesCode m).map encVal))
+    | [Tok.str "annotmol2", m, seq] => do
+        let m ← molOf m
+        let seq ← nats? seq
+        match annotateMolCode m seq with
+        | .ok m' => pure ("ok " ++ encMol m')
+        | .error e => pure (encErr e)
+    | [Tok.str "convmol2", m] => do
+        let m ← mol2Of m
+        match convertAnnotationCode C17Tables.ssCg C17Tables.patterns m with
+        | .ok m' => pure ("ok " ++ encMol2 m')
+        | .error e => pure (encErr e)
+    | [Tok.str "martini", sys] => do
+        let sys ← (← sys.list?).mapM mol2Of
+        pure (encMols2 (annotateMartiniSystem C17Tables.ssCg C17Tables.patterns sys))
+    | [Tok.str "dssp", prot, m, pos, ss] => do
+        let m ← molOf m
+        let pos ← nats? pos
+        let ss ← nats? ss
+        let prot := (← prot.nat?) != 0
+        let hasPos := pos.map (· != 0)
+        let inp := match dsspInput prot m hasPos with
+          | none => "-"
+          | some c => encList ((iterResidues c).map fun p => encList (p.2.map encInt))
+        match annotateDssp prot m hasPos ss with
+        | .ok m' => pure ("ok " ++ encMol m' ++ " input " ++ inp)
+        | .error e => pure (encErr e ++ " input " ++ inp)
+    | [Tok.str "cliss", sys, ss] => do
+        let sys ← (← sys.list?).mapM selMol2Of
+        let ss ← ss.str?
+        pure (encMols2 (cliSs C17Tables.ssCg C17Tables.patterns sys ss.toList))
+    | [Tok.str "clicollagen", sys] => do
+        let sys ← (← sys.list?).mapM selMol2Of
+        pure (encMols2 (cliCollagen sys))
+    | [Tok.str "clidssp", sys] => do
+        let sys ← (← sys.list?).mapM fun t => do
+          match ← t.list? with
+          | [prot, m, pos, ss] =>
+            pure ((← prot.nat?) != 0, ← mol2Of m, (← nats? pos).map (· != 0), ← nats? ss)
+          | _ => none
+        pure (encMols2 (cliDssp C17Tables.ssCg C17Tables.patterns sys))
+    | [Tok.str "savefile", cs] => do
+        let cs ← (← cs.list?).mapM fun t =>
+          match t with
+          | Tok.list [] => some none
+          | Tok.list [c] => (c.optStr?).map some
+          | _ => none
+        match savefileName cs with
+        | .ok n => pure ("ok " ++ encStr n)
+        | .error .indexError => pure "indexerror"
+        | .error .valueError => pure "valueerror"
+    | [Tok.str "readdssp", ls] => do
+        let ls ← (← ls.list?).mapM Tok.str?
+        pure (encDssp (readDssp2 (ls.map String.toList)))
     | _ => none
   ((), r.getD "bad-op")
 
